@@ -2,10 +2,17 @@
 //! line, in order) and then answers in one of the three return forms.
 use bytecode::{BytecodePrimitive, FFIReturnValue};
 
+/// The same source builds two libraries: with the feature `second` every line is tagged PROBE2 and
+/// `probe_only_in_first` does not exist, so a test can tell which library served a call.
+#[cfg(not(feature = "second"))]
+const TAG: &str = "PROBE";
+#[cfg(feature = "second")]
+const TAG: &str = "PROBE2";
+
 fn show(name: &str, args: &[BytecodePrimitive]) {
-    println!("PROBE {name} argc={}", args.len());
+    println!("{TAG} {name} argc={}", args.len());
     for (i, a) in args.iter().enumerate() {
-        println!("PROBE arg{i}={a:?}");
+        println!("{TAG} arg{i}={a:?}");
     }
 }
 
@@ -37,4 +44,11 @@ pub fn probe_none(args: &[BytecodePrimitive]) -> FFIReturnValue {
 pub fn probe_error(args: &[BytecodePrimitive]) -> FFIReturnValue {
     show("probe_error", args);
     FFIReturnValue::FFIError(format!("probe failure with {} argument(s)", args.len()))
+}
+
+#[cfg(not(feature = "second"))]
+#[no_mangle]
+pub fn probe_only_in_first(args: &[BytecodePrimitive]) -> FFIReturnValue {
+    show("probe_only_in_first", args);
+    FFIReturnValue::NoValue
 }
